@@ -321,6 +321,8 @@ fn c09_build(cfg: &[u16]) -> Built {
         (K::NewUser, 3),
         (K::Drop, 2),
         (K::List, 2),
+        (K::Away, 3),
+        (K::CapPost, 2),
     ]);
     Built { cfg: CfgSpec::default(), prof, prelude_users: users, setup }
 }
@@ -506,6 +508,8 @@ fn c11_build(cfg: &[u16]) -> Built {
         (K::Join, 5),
         (K::Drop, 3),
         (K::Privmsg, 3),
+        (K::Away, 4),
+        (K::CapPost, 2),
     ]);
     oper_cfg(&mut s, &mut c, &mut prof);
     // nicknames that differ only in letter case are different users for this server
